@@ -1,12 +1,27 @@
-"""C04 — decided by spec/Ledger.tla (profile "bridge"); see checks/ledger_common.py and DESIGN.md section 5.4."""
+"""C04 — Bridge solvency: deposits are backed, withdrawals are paid at most once.
+Decided by spec/Ledger.tla (profile "bridge": lock / unlock / bridge-transfer bundles, event ids across action kinds)
+and by the receive part of spec/LedgerIbc.tla (deposits for incoming ICS-20 packets)."""
+import ibc_common
 import ledger_common
+import vf
 
 PROP = "C04"
-PROFILES = ["bridge"]
 
 
 def run(tier, seed):
-    return ledger_common.run_ledger(PROP, PROFILES, tier, seed)
+    v = vf.Verdict(PROP, tier, seed)
+    cov, ass1 = ledger_common.run_ledger(PROP, ["bridge"], tier, seed, verdict=v)
+    cov2, ass2 = ibc_common.run_ibc(PROP, tier, seed, profiles=("recv",), only_devs={"F1"}, verdict=v)
+    cov["states"] += cov2["states"]
+    cov["transitions"] += cov2["transitions"]
+    cov["traces_validated_against_impl"] += cov2["traces_validated_against_impl"]
+    cov["evaluations"] += cov2["evaluations"]
+    cov["distinct_nontrivial"] += cov2["distinct_nontrivial"]
+    cov["samples"] += cov2["samples"][:1]
+    cov["tlc_configs"] += cov2["tlc_configs"]
+    cov["ibc_receive"] = {"by_step_and_outcome": cov2["by_step_and_outcome"], "implementation_matched": cov2["implementation_matched"]}
+    cov["rule"] += "; plus the receive cases of LedgerIbc.tla (see C18)"
+    return v.finish(cov, assumptions=ass1 + ass2)
 
 
 def replay(path, seed):
